@@ -13,7 +13,7 @@ import sys, re, struct, argparse, subprocess, hashlib, json
 sys.path.insert(0, __import__('os').path.dirname(__file__))
 from irparse import *
 
-LIBC_PASSTHRU = {'malloc', 'calloc', 'realloc', 'free', 'strcmp', 'strncmp', 'memcmp', 'memcpy', 'memmove', 'memset', 'abs', 'strcpy', 'strncpy',
+LIBC_PASSTHRU = {'malloc', 'calloc', 'realloc', 'free', 'strncmp', 'memcmp', 'memcpy', 'memmove', 'memset', 'abs', 'strcpy', 'strncpy',
                  'strchr', 'memchr'}
 INTRIN_DROP = ('llvm.lifetime.', 'llvm.dbg.', 'llvm.stackrestore', 'llvm.assume', 'llvm.prefetch',
                'llvm.experimental.noalias.scope.decl', 'llvm.donothing', 'llvm.var.annotation', 'llvm.invariant.')
@@ -744,6 +744,8 @@ class FuncEmit:
             finish('vr_%s32(%s)' % (name[:-1], cargs[0]), False); return
         if name == 'strlen' and name not in E.mod.funcs:
             finish('(uint64_t)vr_strlen(%s)' % cargs[0], False); return
+        if name == 'strcmp' and name not in E.mod.funcs:
+            finish('(uint32_t)vr_strcmp(%s, %s)' % (cargs[0], cargs[1]), False); return
         if name in ('memcpy', 'memmove', 'memset') and name not in E.mod.funcs:
             finish('(char*)vr_%s(%s)' % (name, ', '.join(cargs)), False); return
         if name is not None:
